@@ -44,21 +44,15 @@ var (
 	asmCap   = 12
 )
 
-// bodyOf names the kernel body a direct entry point dispatches to
-func bodyOf(k kernel, c byte) string {
+// entryOf names the assembly entry point (TEXT symbol) a direct kernel call enters
+func entryOf(k kernel) string {
 	switch k.kind {
 	case 0:
-		if isAlpha(c) {
-			return "indexbytebodyCase"
-		}
-		return "indexbytebody"
+		return "IndexByte"
 	case 1:
-		if isAlpha(c) {
-			return "countbodyCase"
-		}
-		return "countbody"
+		return "Count"
 	}
-	return "indexByteBodyNonASCII"
+	return "IndexByteNonASCII"
 }
 
 var curAVX2 bool
@@ -231,7 +225,7 @@ func sweep(k kernel, maxLen int) {
 				if len(data) > 0 {
 					hx = fmt.Sprintf("%x", data)
 				}
-				asmLines = append(asmLines, fmt.Sprintf("asm %s %d %d %d %s %d %d", bodyOf(k, c), b2i(curAVX2), a%page, poison, hx, c, got))
+				asmLines = append(asmLines, fmt.Sprintf("asm %s %d %d %d %s %d %d", entryOf(k), b2i(curAVX2), a%page, poison, hx, c, got))
 			}
 			asmMu.Unlock()
 		}
